@@ -98,8 +98,18 @@ Fixpoint qexpr_eqb (a b : qexpr) : bool :=
 Record tstate := mkT {
   phys : string;     (* name of the physical table: ctes[0].this.args["from"].this.alias_or_name *)
   cte : string;      (* name of the CTE ensure_cte wraps the leaf into: expression.args["from"].this.alias_or_name *)
-  branch : string    (* branch id: the qualifier table['c'] produces; normalize() maps it to the CTE name *)
+  branch : string;   (* branch id: the qualifier table['c'] produces; normalize() maps it to the CTE name *)
+  tpath : list string (* schema / catalog.schema the table was opened with: session.table("archive.t") -> ["archive"] *)
 }.
+(** the table reference as written: qualifiers ++ [name] *)
+Definition tref (st : tstate) : list string := (tpath st ++ [phys st])%list.
+
+(** what the statement is aimed at *)
+Inductive tkind :=
+| TScan      (* the Table node scanned by the first CTE itself: keeps schema and catalog *)
+| TBare      (* a table rebuilt from the bare name: schema and catalog dropped *)
+| TCte.      (* the CTE the DataFrame selects from *)
+Definition tkind_is_scan (k : tkind) : bool := match k with TScan => true | _ => false end.
 
 (** * Facts read from the source (T1) *)
 Record cfg := mkCfg {
@@ -111,8 +121,8 @@ Record cfg := mkCfg {
   set_requalifies : bool;         (* assigned values: table == CTE name -> physical name *)
   set_unqualified_raises : bool;  (* the else branch (ValueError) also catches unqualified references *)
   set_strips_alias : bool;        (* top-level alias of an assigned value removed *)
-  target_is_phys_update : bool;   (* exp.Update(this = ctes[0].this.args["from"].this) *)
-  target_is_phys_delete : bool;   (* exp.Delete(this = ctes[0].this.args["from"].this) *)
+  target_update : tkind;          (* exp.Update(this = ctes[0].this.args["from"].this) is TScan *)
+  target_delete : tkind;          (* exp.Delete(this = ctes[0].this.args["from"].this) is TScan *)
   update_has_where : bool;        (* where=exp.Where(this=condition) handed to exp.Update *)
   delete_has_where : bool;        (* where=exp.Where(this=condition) handed to exp.Delete *)
   ensure_cte_update : bool;       (* @ensure_cte() on update *)
@@ -127,7 +137,7 @@ Definition binop_is_and (o : binop) : bool := match o with And => true | _ => fa
     (where_str_is_sql, set_unqualified_raises, set_strips_alias) are deliberately not constrained *)
 Definition cfg_ok (c : cfg) : bool :=
   none_is_true c && binop_is_and (list_op c) && where_requalifies c && where_strips_alias c
-  && set_requalifies c && target_is_phys_update c && target_is_phys_delete c && update_has_where c
+  && set_requalifies c && tkind_is_scan (target_update c) && tkind_is_scan (target_delete c) && update_has_where c
   && delete_has_where c && ensure_cte_update c && ensure_cte_delete c
   && Nat.eqb (build_session_calls c) 0 && Nat.eqb (execute_session_calls c) 1.
 
@@ -150,8 +160,8 @@ Definition err_eqb (a b : err) : bool :=
   end.
 
 Inductive stmt :=
-| SUpdate (tn : string) (set : list (string * qexpr)) (w : option qexpr)
-| SDelete (tn : string) (w : option qexpr).
+| SUpdate (tn : list string) (set : list (string * qexpr)) (w : option qexpr)
+| SDelete (tn : list string) (w : option qexpr).
 
 (** * The builder *)
 (** normalize(): the branch id is replaced by the name of the CTE carrying it *)
@@ -224,7 +234,8 @@ Fixpoint compile_set_from (c : cfg) (st : tstate) (set : list (qexpr * qexpr)) (
   end.
 Definition compile_set c st set := compile_set_from c st set [].
 
-Definition target (is_phys : bool) (st : tstate) : string := if is_phys then phys st else cte st.
+Definition target (k : tkind) (st : tstate) : list string :=
+  match k with TScan => tref st | TBare => [phys st] | TCte => [cte st] end.
 Definition wrap_where (has_where : bool) (p : qexpr) : option qexpr := if has_where then Some p else None.
 
 Definition compile (c : cfg) (st : tstate) (k : call) : err + stmt :=
@@ -235,14 +246,14 @@ Definition compile (c : cfg) (st : tstate) (k : call) : err + stmt :=
            | inl e => inl e
            | inr p => match compile_set c st set with
                       | inl e => inl e
-                      | inr us => inr (SUpdate (target (target_is_phys_update c) st) us (wrap_where (update_has_where c) p))
+                      | inr us => inr (SUpdate (target (target_update c) st) us (wrap_where (update_has_where c) p))
                       end
            end
   | CDelete w =>
       if negb (ensure_cte_delete c) then inl EIndex
       else match compile_where c st w with
            | inl e => inl e
-           | inr p => inr (SDelete (target (target_is_phys_delete c) st) (wrap_where (delete_has_where c) p))
+           | inr p => inr (SDelete (target (target_delete c) st) (wrap_where (delete_has_where c) p))
            end
   end.
 
@@ -266,7 +277,7 @@ Definition stmt_exprs (s : stmt) : list qexpr :=
   match s with SUpdate _ set w => map snd set ++ olist w | SDelete _ w => olist w end.
 Definition stmt_keys (s : stmt) : list string :=
   match s with SUpdate _ set _ => map fst set | SDelete _ _ => [] end.
-Definition stmt_target (s : stmt) : string := match s with SUpdate tn _ _ | SDelete tn _ => tn end.
+Definition stmt_target (s : stmt) : list string := match s with SUpdate tn _ _ | SDelete tn _ => tn end.
 Definition stmt_where (s : stmt) : option qexpr := match s with SUpdate _ _ w | SDelete _ w => w end.
 
 Fixpoint nodupb (l : list string) : bool :=
@@ -286,19 +297,40 @@ Definition exec_rows (cs : list string) (rows : list row) (s : stmt) : list row 
   | SDelete _ w => filter (fun r => negb (sel cs w r)) rows
   end.
 
+(** the database side of a table: the connection's catalog and default schema, and the (schema, table) the
+    rows live under.  A reference [t] means (default schema, t); [s.t] means (s, t); [c.s.t] means (s, t) when c
+    is the connection's catalog, and nothing otherwise. *)
+Record tabref := mkRef { r_cat : string; r_default : string; r_schema : string; r_table : string }.
+Definition bare (name : tabref) : string := r_table name.
+Definition resolve (cat dflt : string) (r : list string) : option (string * string) :=
+  match r with
+  | [t] => Some (dflt, t)
+  | [s; t] => Some (s, t)
+  | [c; s; t] => if String.eqb c cat then Some (s, t) else None
+  | _ => None
+  end.
+Definition names_table (name : tabref) (r : list string) : bool :=
+  match resolve (r_cat name) (r_default name) r with
+  | Some (s, t) => String.eqb s (r_schema name) && String.eqb t (r_table name)
+  | None => false
+  end.
+(** the table object was opened on the table [name] *)
+Definition points_to (name : tabref) (st : tstate) : bool :=
+  names_table name (tref st) && String.eqb (bare name) (phys st).
+
 (** [name]: the table that exists; an [AS alias] inside SET/WHERE is a syntax error; a reference that
     does not resolve (or a SET column named twice) is a binder error; a failed statement changes nothing.
     Result: rows after, and the affected-row count the engine reports. *)
 Definition stmt_syntax_ok (s : stmt) : bool := forallb (fun e => negb (has_alias e)) (stmt_exprs s).
 Definition stmt_binds (name : string) (cs : list string) (s : stmt) : bool :=
   forallb (resolvable name cs) (stmt_exprs s) && forallb (fun k => mem k cs) (stmt_keys s) && nodupb (stmt_keys s).
-Definition exec (name : string) (cs : list string) (rows : list row) (s : stmt) : err + (list row * nat) :=
+Definition exec (name : tabref) (cs : list string) (rows : list row) (s : stmt) : err + (list row * nat) :=
   if negb (stmt_syntax_ok s) then inl EParser
-  else if negb (String.eqb (stmt_target s) name) then inl ECatalog
-  else if negb (stmt_binds name cs s) then inl EBinder
+  else if negb (names_table name (stmt_target s)) then inl ECatalog
+  else if negb (stmt_binds (bare name) cs s) then inl EBinder
   else inr (exec_rows cs rows s, List.length (filter (sel cs (stmt_where s)) rows)).
 
-Definition run (c : cfg) (st : tstate) (name : string) (cs : list string) (rows : list row) (k : call)
+Definition run (c : cfg) (st : tstate) (name : tabref) (cs : list string) (rows : list row) (k : call)
   : err + (list row * nat) :=
   match compile c st k with inl e => inl e | inr s => exec name cs rows s end.
 
@@ -381,6 +413,33 @@ Definition call_ok (c : cfg) (st : tstate) (cs : list string) (k : call) : bool 
   | CDelete w => where_ok c st cs w
   end.
 
+(** * The whole database: a statement changes the one table its target resolves to, and no other *)
+Definition db := list ((string * string) * list row).
+Definition addr_eqb (a b : string * string) : bool := String.eqb (fst a) (fst b) && String.eqb (snd a) (snd b).
+Fixpoint db_get (a : string * string) (d : db) : option (list row) :=
+  match d with [] => None | (b, rows) :: d' => if addr_eqb b a then Some rows else db_get a d' end.
+Fixpoint db_set (a : string * string) (rows : list row) (d : db) : db :=
+  match d with
+  | [] => []
+  | (b, old) :: d' => if addr_eqb b a then (b, rows) :: d' else (b, old) :: db_set a rows d'
+  end.
+(** all tables of the database share the columns [cs] (enough for "a same-named table in another schema") *)
+Definition exec_db (cat dflt : string) (cs : list string) (d : db) (s : stmt) : err + (db * nat) :=
+  match resolve cat dflt (stmt_target s) with
+  | None => inl ECatalog
+  | Some a =>
+      match db_get a d with
+      | None => if stmt_syntax_ok s then inl ECatalog else inl EParser
+      | Some rows =>
+          match exec (mkRef cat dflt (fst a) (snd a)) cs rows s with
+          | inl e => inl e
+          | inr (rows', n) => inr (db_set a rows' d, n)
+          end
+      end
+  end.
+Definition run_db (c : cfg) (st : tstate) (cat dflt : string) (cs : list string) (d : db) (k : call) : err + (db * nat) :=
+  match compile c st k with inl e => inl e | inr s => exec_db cat dflt cs d s end.
+
 (** * Histories: lazy expressions are built and, later, executed in any order, any number of times *)
 Inductive action :=
 | ABuild (k : call)        (* le_i = table.update(...) / table.delete(...) *)
@@ -392,13 +451,13 @@ Record world := mkW {
   w_built : list (err + stmt)
 }.
 
-Fixpoint exec_n (name : string) (cs : list string) (n : nat) (rows : list row) (s : stmt) : list row :=
+Fixpoint exec_n (name : tabref) (cs : list string) (n : nat) (rows : list row) (s : stmt) : list row :=
   match n with
   | O => rows
   | S n' => exec_n name cs n' (match exec name cs rows s with inr (rs, _) => rs | inl _ => rows end) s
   end.
 
-Definition step (c : cfg) (st : tstate) (name : string) (cs : list string) (w : world) (a : action) : world :=
+Definition step (c : cfg) (st : tstate) (name : tabref) (cs : list string) (w : world) (a : action) : world :=
   match a with
   | ABuild k =>
       let b := compile c st k in
